@@ -61,6 +61,17 @@ def run(ctx, rep):
     rep.notes.append('C10 PARTIAL: decides the validation path of fit (range checks on both columns, tau = element 0 of kendalltau, '
                      'NaN refusal, calibration), validate-after-assign of theta, the admissible sets, who may write theta/tau and '
                      'the scalar contract of the Frank calibration; D7 evaluates the two closed-form calibrations on intervals of tau (refutation of tau(theta(tau)) = tau, proof of admissibility); the Frank calibration is numeric and not decided.')
+    # positive evidence that needs no private anchor: some function reachable from fit stores self.theta at all
+    fit_ = prog.method(BIV, 'fit', inherited=False)
+    clo = ctx.cg.closure([fit_])
+    stores = [(g, t_) for g in clo.values() if g.self_name for s_ in walk_no_nested(g.node) if isinstance(s_, (ast.Assign, ast.AugAssign))
+              for t_ in (s_.targets if isinstance(s_, ast.Assign) else [s_.target]) if is_self_attr(t_, g.self_name, 'theta')]
+    rep.rule('D0.stores', 'some function reachable from Bivariate.fit assigns self.theta (the calibration is not skipped)')
+    if stores:
+        rep.ok('D0.stores', stores[0][0], stores[0][1], 'theta is assigned during fit', construct='fit assigns theta')
+    else:
+        rep.bad('D0.stores', fit_, fit_.node.name, 'no function reachable from Bivariate.fit assigns self.theta: after fit the model keeps the theta it was constructed with (None)',
+                construct='fit assigns theta')
     rep.guarded('D1.d1', d1, ctx, rep)
     rep.guarded('D2.d2', d2, ctx, rep)
     rep.guarded('D3.d3', d3, ctx, rep)
